@@ -110,10 +110,11 @@ func (l DeclarationPropertyLines) AlignKey() {
 
 // DeclarationPropertyLines could be sorted by name alphabetically
 func (l DeclarationPropertyLines) Sort() {
-	sort.Slice(l, func(i, j int) bool {
-		// Ignore sorting target for object (e.g director backend, probe property in backend)
-		if l[i].isObject {
-			return false
+	sort.SliceStable(l, func(i, j int) bool {
+		// Objects (e.g director backend, probe property in backend) are not a sorting target:
+		// they follow the sorted properties and keep their relative order.
+		if l[i].isObject || l[j].isObject {
+			return !l[i].isObject && l[j].isObject
 		}
 		return l[i].Key < l[j].Key
 	})
